@@ -731,7 +731,7 @@ main(int argc, char **argv) {
 			if (vh_thorough) { if (c != 2 && c != 5) continue; }	/* 2^32-2, 2^64-2 */
 			else if (!((c == 2 && r == 2 && kl == 1) || (c == 5 && r == 0 && kl == 0))) continue;
 			cfg = mkcfg(r, kl, 0, c, 1);
-			bfs(&cfg, vh_thorough ? LMAX : LMAX, 1);
+			bfs(&cfg, (vh_thorough || 2 == c) ? LMAX : L, 1);
 		}
 	}
 	for (r = 0; r < 3; r ++) for (kl = 0; kl < 2; kl ++) for (c = 0; c < 7; c ++) for (nn = 0; nn < 4; nn ++) {
